@@ -558,6 +558,23 @@ class K{base}:
         return 7
 OPS = [("new", (-1,), {{}}), ("new", (1,), {{}}), ("call", "get")]
 ''',
+    "new-returns-instance-of-another-class-with-invariants": '''
+{deco2}
+class Other:
+    """A class with invariants of its own (and no constructor); K hands out its instances for some inputs."""
+    x = 1
+    def get(self):
+        return 70
+{deco}
+class K{base}:
+    def __new__(cls, x):
+        if x < 0:
+            return Other()
+        return super().__new__(cls)
+    def get(self):
+        return 7
+OPS = [("new", (-1,), {{}}), ("new", (1,), {{}}), ("call", "get")]
+''',
     "descriptor-only-defined-for-instances": '''
 class PerInstance:
     """A descriptor which is only defined for instances (like the relation attributes of ORMs): reading it on the class fails."""
@@ -1093,6 +1110,14 @@ def run_classes(w) -> None:
                     w.count("class_operations", len(want))
                     # the invariants hold, so nothing is seen of them - but they are evaluated all the same, on the instance the call is
                     # made on: a call by keyword of a public method is surrounded by the invariants selected for calls
+                    if tag == "new-returns-instance-of-another-class-with-invariants":
+                        # the object of the other class is checked once, when IT is constructed; handing it out is not K's to check
+                        n_other = sum(1 for e in dec.hub.events if e.kind == "inv" and str(e.id).startswith("invM"))
+                        want_other = {"call": 1, "setattr": 1, "all": 1, "two": 2}[iname]
+                        if n_other != want_other:
+                            w.violation("C14/new-returning-foreign-object-breaks-instantiation", "{} ({}DBC, invariant {}): the invariants of the "
+                                        "object which __new__ handed out were evaluated {} times (expected {}: once, at its own construction)".format(
+                                            tag, "" if dbc else "no ", iname, n_other, want_other), case)
                     n_call_invs = {"call": 1, "setattr": 0, "all": 1, "two": 2}[iname]
                     for i, op in enumerate(bare.module.OPS):
                         if op[0] == "callkw" and i < len(got) and got[i][0] == "ok" and inv_counts[i] != 2 * n_call_invs:
